@@ -1356,7 +1356,7 @@ pub fn endings(a: &HashMap<String, String>) -> i32 {
     let thorough = tier_of(a);
     let mut sink = Sink::new(a);
     let seed = seed_of(a);
-    let states = ["idle", "ops", "midq2", "queued"];
+    let states = ["idle", "ops", "midq2", "queued", "recunpolled"];
     let mut causes: Vec<Value> = vec![];
     for behind in 0..3usize {
         for after in 0..2usize {
@@ -1381,6 +1381,9 @@ pub fn endings(a: &HashMap<String, String>) -> i32 {
     }
     causes.push(json!({"c": "eof"}));
     causes.push(json!({"c": "rderr"}));
+    causes.push(json!({"c": "ctxdrop"})); // the context is dropped while it is still serving, nothing is polled in between
+    causes.push(json!({"c": "oversized-disc", "n": 40})); // a DISCONNECT refused for size is not a DISCONNECT
+    causes.push(json!({"c": "oversized-disc", "n": 200}));
     causes.push(json!({"c": "wrerr", "req": "ping"}));
     causes.push(json!({"c": "wrerr", "req": "pub1"}));
     causes.push(json!({"c": "wrerr", "req": "sub"}));
@@ -1394,7 +1397,8 @@ pub fn endings(a: &HashMap<String, String>) -> i32 {
                 Some(x) => x,
                 None => continue,
             };
-            let mut steps = vec![reset("endings", Some(5), None)];
+            let m = if cause["c"] == "oversized-disc" { Some(34u32) } else { None };
+            let mut steps = vec![reset("endings", Some(5), m)];
             let mut next = 1usize;
             let mut live_ops: Vec<usize> = vec![];
             match st {
@@ -1416,6 +1420,19 @@ pub fn endings(a: &HashMap<String, String>) -> i32 {
                     }
                     next = 5;
                     live_ops = vec![2, 3, 4];
+                }
+                "recunpolled" => {
+                    // a QoS 2 publish whose PUBREC the actor has handled but whose future has not been polled since
+                    steps.push(json!({"a": "call", "op": 1, "h": 0, "spec": pub_spec(1, 2, 2)}));
+                    steps.push(json!({"a": "call", "op": 2, "h": 0, "spec": pub_spec(2, 1, 2)}));
+                    steps.push(poll_op(1));
+                    steps.push(poll_op(2));
+                    steps.push(poll_ctx());
+                    steps.push(json!({"a": "pkt", "pk": {"t": "PUBREC", "id": {"op": 1}, "rc": 0}}));
+                    steps.push(json!({"a": "pkt", "pk": {"t": "PUBACK", "id": {"op": 2}, "rc": 0}}));
+                    steps.push(poll_ctx());
+                    next = 3;
+                    live_ops = vec![1, 2];
                 }
                 "queued" => {
                     steps.push(json!({"a": "call", "op": 1, "h": 0, "spec": pub_spec(1, 1, 2)}));
@@ -1457,6 +1474,20 @@ pub fn endings(a: &HashMap<String, String>) -> i32 {
                 }
                 "srvdisc" => {
                     steps.push(json!({"a": "pkt", "pk": {"t": "DISCONNECT", "rc": cause["rc"], "props": cause["props"]}, "form": cause["form"]}));
+                }
+                "ctxdrop" => {
+                    steps.push(json!({"a": "drop", "t": "ctx", "k": 0}));
+                }
+                "oversized-disc" => {
+                    let n = cause["n"].as_u64().unwrap_or(40) as usize;
+                    steps.push(json!({"a": "call", "op": next, "h": 0, "spec": {"kind": "disc", "rs": {"tag": "why", "n": n}}}));
+                    steps.push(settle_wake());
+                    steps.push(json!({"a": "call", "op": next + 1, "h": 0, "spec": {"kind": "ping"}}));
+                    steps.push(settle_wake());
+                    steps.push(json!({"a": "pkt", "pk": {"t": "PINGRESP"}}));
+                    steps.push(settle_wake());
+                    steps.push(json!({"a": "call", "op": next + 2, "h": 0, "spec": {"kind": "disc"}}));
+                    next += 3;
                 }
                 "eof" => steps.push(json!({"a": "eof"})),
                 "rderr" => steps.push(json!({"a": "rderr"})),
